@@ -188,6 +188,12 @@ def ref_parse_number(tok):
 def check_raw_text(ctx, s, explicit=None):
     """Outcome-agnostic oracle for arbitrary text (shared with the fuzz target)."""
     eu = Unit(explicit) if explicit else None
+    import re
+    m = re.search(r"[eE]\s*([+-]?\d+)", s)
+    if (m and len(m.group(1)) > 4) or len(s) > 400:
+        # resource bound of the harness (DESIGN.md 7.8): '1e999999999' makes any decimal implementation
+        # allocate gigabytes; not generated, and skipped when a fuzzer finds it
+        return "skipped"
     try:
         q = Quantity(s, eu) if eu is not None else Quantity(s)
     except QuantityError:
@@ -355,8 +361,15 @@ def fuzz_part(ctx, shard, nshards, n, sd):
         e["VQ_FUZZ_OUT"] = out
         e["VERIF_REPO"] = env.REPO
         cmd = [sys.executable, target, corpus, f"-runs={n}", f"-seed={sd % (2 ** 31) or 1}", "-max_len=64",
+               "-timeout=30", "-rss_limit_mb=4096",
                f"-dict={os.path.join(env.VERIF_DIR, 'fuzz', 'c18.dict')}", "-print_final_stats=1", "-verbosity=0"]
-        p = subprocess.run(cmd, capture_output=True, text=True, env=e, timeout=3000, cwd=work)
+        try:
+            p = subprocess.run(cmd, capture_output=True, text=True, env=e, cwd=work,
+                               timeout=900 if n > 200000 else 300)
+        except subprocess.TimeoutExpired:
+            # a time budget hit means 'inconclusive', never a violation
+            ctx.labels["fuzz/campaign_timeout"] += 1
+            return
         runs = 0
         for line in (p.stderr or "").splitlines():
             if "stat::number_of_executed_units" in line:
